@@ -206,10 +206,13 @@ func runC20(c *core.Ctx) {
 	// names that are printf directives, invalid UTF-8, control characters, near-duplicates of each other: all registered
 	// on ONE issuer, each served under its own name and recovered exactly (the second value of Evaluate is the request
 	// key blinded with THAT origin's index key - checked through reqLen's finalization)
-	if c.Next() {
-		r := c.CaseRng()
-		names := HostileNames()
+	{
+		names := append(HostileNames(), LastByteNames()...)
 		for lo := 0; lo < len(names); lo += 40 {
+			if !c.Next() {
+				continue
+			}
+			r := c.CaseRng()
 			hi := min(lo+40, len(names))
 			issuer := type3.NewRateLimitedIssuer(key)
 			for _, o := range names[lo:hi] {
